@@ -231,7 +231,12 @@ def strat_grids(draw, tier):
         paths.append({"inner": inner, "jumps": [float(f"{v:.6g}") for v in vals]})
     return {"n": n, "T": T, "paths": paths, "x0": draw(_f(20.0, 150.0)), "drift": draw(st.sampled_from([0.0, 5.0, -12.0, 40.0])),
             "kind": draw(st.sampled_from(["asian-call", "spot-call", "barrier"])), "strike_rel": draw(_f(0.7, 1.3)),
-            "notional": draw(st.sampled_from([1.0, 7.0])), "df": draw(_f(0.5, 1.0)), "spot_stats": draw(st.booleans())}
+            "notional": draw(st.sampled_from([1.0, 7.0])), "df": draw(_f(0.5, 1.0)), "spot_stats": draw(st.booleans()),
+            # a control written on the spot (a forward), i.e. on another underlying type than an Asian product's; the
+            # process in identity or log representation; optionally the same configuration / control object has priced
+            # a spot call before (controls are re-initialised for every pricing)
+            "control": draw(st.sampled_from([None, None, {"strike_rel": 0.9, "price": 3.0}, {"strike_rel": 1.1, "price": -2.0}])),
+            "rep": draw(st.sampled_from(["IDENDITY", "LOG"])), "priced_before": draw(st.booleans())}
 
 
 def body_grids(case):
@@ -261,10 +266,37 @@ def body_grids(case):
         elif case["kind"] == "spot-call":
             y = max(full[-1] - k, 0.0)
         else:  # down-and-out call, barrier at 0.9 x0
-            y = 0.0 if np.any(full <= 0.9 * x0) else max(full[-1] - k, 0.0)
+            # (the library knocks out strictly below the barrier; a path touching it exactly - e.g. x0 + drift*T = 0.9 x0 - is
+            # a tie the property does not settle: the reference follows the documented strict comparison)
+            y = 0.0 if np.any(full < 0.9 * x0) else max(full[-1] - k, 0.0)
         samples.append(case["notional"] * y * case["df"])
     Y = np.array(samples)
-    proc = ScriptedProcess(lib_paths, df=case["df"], x0=x0, drift=mu)
+    from rpylib.process.process import ProcessRepresentation
+    from rpylib.product.payoff import Forward
+    from rpylib.product.product import ControlVariates
+
+    # (barrier payoffs compare the barrier with the raw path: identity representation only, as in C17)
+    log_rep = case.get("rep") == "LOG" and case["kind"] != "barrier" and all(np.all(x0 + mu * pp.times() + pp.value_jump() > 0) for pp in lib_paths)
+    if log_rep:
+        # the same price paths handed over in log representation (deterministic part 0, the whole log-path stochastic)
+        lib_paths = [StochasticJumpPath(pp.times(), np.zeros(len(pp.times())), np.log(x0 + mu * pp.times() + pp.value_jump()))
+                     for pp in lib_paths]
+        rep = ProcessRepresentation.LOG
+    else:
+        rep = ProcessRepresentation.IDENDITY
+
+    def new_process():
+        return ScriptedProcess(list(lib_paths), df=case["df"], representation=rep, x0=0.0 if log_rep else x0,
+                               drift=0.0 if log_rep else mu)
+
+    proc = new_process()
+    cv, X = None, None
+    if case.get("control"):
+        kc = case["control"]["strike_rel"] * x0
+        cv = ControlVariates([Product(payoff_underlying=Spot(), payoff=Forward(strike=kc), maturity=T)], [case["control"]["price"]])
+        finals = np.array([x0 + mu * T + float(np.sum(np.array(p["jumps"][:len(p["inner"])], dtype=float) * 0.1 * x0))
+                           for p in case["paths"]])
+        X = (finals - kc) * case["df"]
     if case["kind"] == "asian-call":
         und, payoff = Asian(), Vanilla(strike=k, payoff_type=PayoffType.CALL)
     elif case["kind"] == "spot-call":
@@ -272,7 +304,11 @@ def body_grids(case):
     else:
         und, payoff = Spot(), Barrier(strike=k, payoff_type=PayoffType.CALL, barrier_type=BarrierType.DOWN_AND_OUT, barrier=0.9 * x0)
     product = Product(payoff_underlying=und, payoff=payoff, maturity=T, notional=case["notional"])
-    config = ConfigurationStandard(mc_paths=n, seed=None, activate_spot_statistics=case["spot_stats"], nb_of_processes=1)
+    config = ConfigurationStandard(mc_paths=n, seed=None, control_variates=cv, activate_spot_statistics=case["spot_stats"],
+                                   nb_of_processes=1)
+    if case.get("priced_before"):
+        Engine(configuration=config, process=new_process()).price(
+            Product(payoff_underlying=Spot(), payoff=Vanilla(strike=k, payoff_type=PayoffType.CALL), maturity=T))
     stats = Engine(configuration=config, process=proc).price(product)
     detail = f"case={ {k_: v for k_, v in case.items() if k_ != 'paths'} } first paths={case['paths'][:3]}"
     stored = np.asarray(stats._payoff_statistics.stats, dtype=float).ravel()
@@ -284,9 +320,21 @@ def body_grids(case):
         return out
     price = float(np.asarray(stats.price(no_control_variates=True)).ravel()[0])
     err = float(np.asarray(stats.mc_stddev(no_control_variates=True)).ravel()[0])
-    if abs(price - Y.mean()) > 1e-12 * scale or abs(err - Y.std(ddof=1) / math.sqrt(n)) > 1e-10 * scale:
+    if abs(price - Y.mean()) > 1e-9 * scale or abs(err - Y.std(ddof=1) / math.sqrt(n)) > 1e-9 * scale:
         out.append(Violation(f"C07/per-path-grids/{case['kind']}/price-or-error", f"{price}, {err} vs {Y.mean()}, "
                                                                                    f"{Y.std(ddof=1) / math.sqrt(n)}; {detail}"))
+    if X is not None and n >= 3:
+        xc = X - X.mean()
+        vx = float(xc @ xc) / n
+        if vx > 1e-12 and (Y.std() > 0):
+            b = float(xc @ (Y - Y.mean())) / n / vx
+            adj = Y - b * (X - case["control"]["price"])
+            got = np.asarray(stats._payoff_statistics_with_cv.stats, dtype=float).ravel()
+            sc = scale + np.abs(X).max() + abs(case["control"]["price"])
+            if got.shape != adj.shape or not np.allclose(got, adj, rtol=1e-7, atol=1e-7 * sc):
+                out.append(Violation(f"C07/per-path-grids/{case['kind']}/control-on-the-spot/adjusted-samples",
+                                     f"{got[:3]} vs textbook Y - b*(X - price) {adj[:3]} (representation {case.get('rep')}, "
+                                     f"priced before: {case.get('priced_before')}); {detail}"))
     return out
 
 
@@ -294,7 +342,9 @@ def classify_grids(case):
     lens = [len(p["inner"]) for p in case["paths"]]
     rep = any(a == b and pa["inner"] != pb["inner"] for a, b, pa, pb in zip(lens, lens[1:], case["paths"], case["paths"][1:]))
     labels = [case["kind"], "drift" if case["drift"] else "no-drift",
-              "consecutive-grids-of-equal-length" if rep else "lengths-always-change"]
+              "consecutive-grids-of-equal-length" if rep else "lengths-always-change",
+              "spot-control" if case.get("control") else "no-control", case.get("rep", "IDENDITY"),
+              "configuration-priced-before" if case.get("priced_before") else "first-pricing"]
     return labels, rep and bool(case["drift"])
 
 
